@@ -1,7 +1,7 @@
 (* Wire command of the Loader model (C02) for the correspondence driver.
 
      (c02_load <arming> <thr> <kind> <off> h<content at parse time> h<content afterwards>
-               <decode> <protos> <stds> <reprs>)
+               <decode> <protos> <stds> <reprs> ( <earlier hook operation> ... ))
        arming = direct | hook | ctx       (thr = the threshold argument; ignored by hook, and -- as
                                             in context.py -- by ctx)
        kind   = bytes | seek | nonseek
@@ -17,7 +17,7 @@
 From Coq Require Import List String Ascii ZArith NArith Bool Arith.
 From Coq.Strings Require Import Byte.
 From Verif Require Import Base Hooks Ops Interp RefVM Unparse Codec Analysis Severity Loader
-  Dispatch DispatchCodec DispatchAnalysis.
+  Dispatch DispatchCodec DispatchAnalysis DispatchHooks.
 Import ListNotations.
 Open Scope string_scope.
 
@@ -63,10 +63,10 @@ Definition show_lrun (r : lrun val) : string :=
 Definition handle_loader (cmd : string) (args : list sexp) : option string :=
   if cmd =? "c02_load" then
     match args with
-    | [Atom a; thr; k; off; b0; b1; dec; protos; stds; reprs] =>
+    | [Atom a; thr; k; off; b0; b1; dec; protos; stds; reprs; SList hist] =>
         match as_nat thr, kind_of_atom k, nat_of_atom off, bytes_of_wire b0, bytes_of_wire b1,
-              protos_of_sexp protos, strs_of_sexp stds, reprs_of_sexp reprs with
-        | Some t, Some kd, Some o, Some bs0, Some bs1, Some pr, Some sl, Some tbl =>
+              protos_of_sexp protos, strs_of_sexp stds, reprs_of_sexp reprs, opt_map as_hop hist with
+        | Some t, Some kd, Some o, Some bs0, Some bs1, Some pr, Some sl, Some tbl, Some h =>
             let dec' := match dec with
                         | SList l => match ops_of_sexps l with
                                      | Some p => Some (Some (p, pr))
@@ -80,13 +80,13 @@ Definition handle_loader (cmd : string) (args : list sexp) : option string :=
                 let prog := match d with Some (p, _) => p | None => [] end in
                 let s := mkStream kd o (fun tm => if Nat.eqb tm T_PARSE then bs0 else bs1) in
                 Some (match armed_load val (ref_unpickle prog) (fun _ => d)
-                              (lookup_repr tbl) (fun m => mem_str m sl) [] arm s with
+                              (lookup_repr tbl) (fun m => mem_str m sl) h arm s with
                       | Some r => show_lrun r
                       | None => "UNMODELLED-BINDING"
                       end)
             | _, _ => Some "!bad-args"
             end
-        | _, _, _, _, _, _, _, _ => Some "!bad-args"
+        | _, _, _, _, _, _, _, _, _ => Some "!bad-args"
         end
     | _ => None
     end
